@@ -5,10 +5,40 @@ package forward
 // destinations on a closed loopback port (handlers retry in the background; nothing depends on a
 // connection) and records what the manager lists and which forwarders run after every call.
 // Records only; TLC decides (spec/misc/TraceForward.tla).
+//
+// What is observed, and how (nothing is read from the Manager's own bookkeeping by name):
+//   - "started" (the stream is available) is what the harness itself did: it called Start / Stop.
+//   - the listed forwarders, their order, identity and configuration: Manager.APIList().
+//   - which forwarders run, how many run loops each one has, which run it is:
+//       (1) the forwarders' own log lines "[PROTO dest N id] starting" / "... stopping", which reach the
+//           Manager's Parent (the harness) synchronously from start() / stop(): a package-boundary
+//           observation. It is trusted only if a calibration run (one destination, Start, Stop) shows
+//           exactly one line of each kind;
+//       (2) the forwarders' done channels (a run loop is alive while its channel is open). The
+//           forwarder objects are found by TYPE (a []*DestHandler field of Manager, a chan struct{} /
+//           func() field of DestHandler) through reflection, never by field name, so the harness still
+//           compiles and works from (1) alone when the structures change.
+//     Every done channel ever seen is remembered per forwarder, so a forwarder that is started a
+//     second time while its first run loop is alive shows loops = 2.
+// The code under test can crash the process (a forwarder started on a nil stream, a double close of
+// a done channel). Walks therefore run in a child process of the test binary; a crash costs one walk
+// (recorded as crashed), the remaining walks continue in a fresh child.
 
 import (
+	"bufio"
+	"bytes"
+	"encoding/hex"
+	"encoding/json"
+	"fmt"
+	"os"
+	"os/exec"
+	"reflect"
+	"regexp"
+	"strconv"
+	"sync"
 	"testing"
 	"time"
+	"unsafe"
 
 	"github.com/bluenviron/gortsplib/v5/pkg/description"
 	"github.com/bluenviron/gortsplib/v5/pkg/format"
@@ -20,9 +50,9 @@ import (
 	"github.com/bluenviron/mediamtx/internal/verifrt"
 )
 
-type vf39Log struct{}
+type vf39NilLog struct{}
 
-func (vf39Log) Log(logger.Level, string, ...any) {}
+func (vf39NilLog) Log(logger.Level, string, ...any) {}
 
 type vf39Op struct {
 	K string   `json:"k"`
@@ -34,6 +64,7 @@ type vf39H struct {
 	Dest    string `json:"dest"`
 	Running bool   `json:"running"`
 	Run     int    `json:"run"`
+	Loops   int    `json:"loops"`
 }
 
 type vf39Obs struct {
@@ -41,9 +72,7 @@ type vf39Obs struct {
 	Handlers []vf39H  `json:"handlers"`
 	Started  bool     `json:"started"`
 	Strays   []int    `json:"strays"`
-	MStarted bool     `json:"mstarted"`
 	Pos      []int    `json:"pos"`
-	CtxLive  []bool   `json:"ctxLive"`
 }
 
 type vf39Run struct {
@@ -53,6 +82,11 @@ type vf39Run struct {
 	Ms  int64     `json:"ms"`
 	// the walk was cut short because the next call would crash the process (see vf39World.unsafe)
 	Truncated string `json:"truncated"`
+	// the code under test crashed the process during this walk (panic text); nothing was observed
+	Crashed string `json:"crashed"`
+	// which observation channels were available
+	Ptrs bool `json:"ptrs"`
+	Logs bool `json:"logs"`
 }
 
 // the three abstract destinations: two protocols, and a destination that differs from "a" only in
@@ -93,7 +127,7 @@ func vf39Stream(t testing.TB) *stream.Stream {
 		OrigDesc:          desc,
 		WriteQueueSize:    512,
 		RTPMaxPayloadSize: 1450,
-		Parent:            vf39Log{},
+		Parent:            vf39NilLog{},
 	}
 	if err := strm.Initialize(); err != nil {
 		t.Fatalf("stream: %v", err)
@@ -113,91 +147,319 @@ func vf39Open(ch chan struct{}) bool {
 	}
 }
 
+// ---- structure access by type (never by field name)
+
+// vf39Handlers returns the manager's forwarder objects if it keeps them in a []*DestHandler field.
+func vf39Handlers(m *Manager) ([]*DestHandler, bool) {
+	v := reflect.ValueOf(m).Elem()
+	want := reflect.TypeOf([]*DestHandler(nil))
+	for i := 0; i < v.NumField(); i++ {
+		f := v.Field(i)
+		if f.Type() == want {
+			return *(*[]*DestHandler)(unsafe.Pointer(f.UnsafeAddr())), true
+		}
+	}
+	return nil, false
+}
+
+// vf39Done returns the forwarder's done channel (its only chan struct{} field), if there is exactly one.
+func vf39Done(h *DestHandler) (chan struct{}, bool) {
+	v := reflect.ValueOf(h).Elem()
+	want := reflect.TypeOf((chan struct{})(nil))
+	var out chan struct{}
+	n := 0
+	for i := 0; i < v.NumField(); i++ {
+		f := v.Field(i)
+		if f.Type() == want {
+			out = *(*chan struct{})(unsafe.Pointer(f.UnsafeAddr()))
+			n++
+		}
+	}
+	return out, n == 1
+}
+
+// vf39NeverStarted: the forwarder's cancel function (its only func() field) is nil.
+func vf39NeverStarted(h *DestHandler) (bool, bool) {
+	v := reflect.ValueOf(h).Elem()
+	want := reflect.TypeOf((func())(nil))
+	isNil, n := false, 0
+	for i := 0; i < v.NumField(); i++ {
+		f := v.Field(i)
+		if f.Type() == want {
+			isNil = f.IsNil()
+			n++
+		}
+	}
+	return isNil, n == 1
+}
+
+// ---- the world of one walk
+
+type vf39HState struct {
+	prefix string
+	id     int // 0 = not yet numbered
+	live   int // run loops alive according to the log lines
+	starts int
+	last   int // ordinal of the last "starting" line of this forwarder
+	ptr    *DestHandler
+	chans  []chan struct{} // every done channel ever seen for this forwarder
+}
+
 type vf39World struct {
 	m       *Manager
 	started bool
 	conf    []string
-	ids     map[uuid.UUID]int
-	all     map[*DestHandler]int
-	runs    map[chan struct{}]int
 	strm    *stream.Stream
+	logsOK  bool
+	ptrsOK  bool
+
+	mu      sync.Mutex
+	byID    map[string]*vf39HState // key: hex of the first 4 bytes of the API id (what the log lines carry)
+	nextID  int
+	nstarts int
+	runs    map[chan struct{}]int
+}
+
+var vf39LogRe = regexp.MustCompile(`^\[\S+ dest \d+ ([0-9a-f]{8})\] (starting|stopping)$`)
+
+// Log is the Manager's Parent: every forwarder's log lines end up here.
+func (w *vf39World) Log(_ logger.Level, format string, args ...any) {
+	msg := fmt.Sprintf(format, args...)
+	mm := vf39LogRe.FindStringSubmatch(msg)
+	if mm == nil {
+		return
+	}
+	w.mu.Lock()
+	defer w.mu.Unlock()
+	st := w.state(mm[1])
+	if mm[2] == "starting" {
+		st.live++
+		st.starts++
+		w.nstarts++
+		st.last = w.nstarts
+	} else if st.live > 0 {
+		st.live--
+	}
+}
+
+func (w *vf39World) state(prefix string) *vf39HState {
+	st, ok := w.byID[prefix]
+	if !ok {
+		st = &vf39HState{prefix: prefix}
+		w.byID[prefix] = st
+	}
+	return st
+}
+
+func vf39Prefix(id uuid.UUID) string { return hex.EncodeToString(id[:4]) }
+
+func vf39NewWorld() *vf39World {
+	return &vf39World{byID: map[string]*vf39HState{}, runs: map[chan struct{}]int{}}
+}
+
+func (w *vf39World) newManager(l []string) {
+	w.m = &Manager{
+		ReadTimeout:       conf.Duration(2 * time.Second),
+		WriteTimeout:      conf.Duration(2 * time.Second),
+		UDPMaxPayloadSize: 1472,
+		PathName:          "p",
+		Forward:           vf39Fwd(l),
+		Parent:            w,
+	}
+	w.m.Initialize()
+	w.conf = l
+}
+
+// refresh binds forwarder objects (when reachable) to their states and remembers their done channels.
+func (w *vf39World) refresh() {
+	ptrs, ok := vf39Handlers(w.m)
+	if !ok || !w.ptrsOK {
+		return
+	}
+	for _, dh := range ptrs {
+		if dh == nil {
+			continue
+		}
+		st := w.state(vf39Prefix(dh.ID()))
+		st.ptr = dh
+		if ch, ok2 := vf39Done(dh); ok2 && ch != nil {
+			seen := false
+			for _, c := range st.chans {
+				if c == ch {
+					seen = true
+				}
+			}
+			if !seen {
+				st.chans = append(st.chans, ch)
+			}
+		}
+	}
+}
+
+func (w *vf39World) loops(st *vf39HState) int {
+	open := 0
+	for _, c := range st.chans {
+		if vf39Open(c) {
+			open++
+		}
+	}
+	switch {
+	case w.ptrsOK && w.logsOK:
+		if st.live > open {
+			return st.live
+		}
+		return open
+	case w.ptrsOK:
+		return open
+	default:
+		return st.live
+	}
 }
 
 func (w *vf39World) observe() vf39Obs {
 	o := vf39Obs{Conf: append([]string{}, w.conf...), Handlers: []vf39H{}, Started: w.started,
-		Strays: []int{}, MStarted: w.m.started, Pos: []int{}, CtxLive: []bool{}}
+		Strays: []int{}, Pos: []int{}}
 	list := w.m.APIList()
-	cur := map[*DestHandler]bool{}
-	for i, it := range list.Items {
-		id, ok := w.ids[it.ID]
-		if !ok {
-			id = len(w.ids) + 1
-			w.ids[it.ID] = id
+	w.mu.Lock()
+	defer w.mu.Unlock()
+	w.refresh()
+	listed := map[*vf39HState]bool{}
+	for _, it := range list.Items {
+		st := w.state(vf39Prefix(it.ID))
+		listed[st] = true
+		if st.id == 0 {
+			w.nextID++
+			st.id = w.nextID
 		}
-		h := vf39H{ID: id, Dest: vf39TokenOf(it.Conf)}
-		live := false
-		if i < len(w.m.destHandlers) {
-			dh := w.m.destHandlers[i]
-			cur[dh] = true
-			if _, ok2 := w.all[dh]; !ok2 {
-				w.all[dh] = id
-			}
-			h.Running = vf39Open(dh.done)
-			if dh.done != nil {
-				rn, ok3 := w.runs[dh.done]
-				if !ok3 {
-					rn = len(w.runs) + 1
-					w.runs[dh.done] = rn
+		h := vf39H{ID: st.id, Dest: vf39TokenOf(it.Conf), Loops: w.loops(st)}
+		h.Running = h.Loops >= 1
+		if w.ptrsOK {
+			if st.ptr != nil {
+				if ch, ok := vf39Done(st.ptr); ok && ch != nil {
+					rn, ok2 := w.runs[ch]
+					if !ok2 {
+						rn = len(w.runs) + 1
+						w.runs[ch] = rn
+					}
+					h.Run = rn
 				}
-				h.Run = rn
 			}
-			live = dh.ctx != nil && dh.ctx.Err() == nil
+		} else {
+			h.Run = st.last
 		}
 		o.Handlers = append(o.Handlers, h)
 		o.Pos = append(o.Pos, it.Pos)
-		o.CtxLive = append(o.CtxLive, live)
 	}
-	for dh, id := range w.all {
-		if !cur[dh] && vf39Open(dh.done) {
-			o.Strays = append(o.Strays, id)
+	for _, st := range w.byID {
+		if !listed[st] && w.loops(st) >= 1 {
+			if st.id == 0 {
+				w.nextID++
+				st.id = w.nextID
+			}
+			o.Strays = append(o.Strays, st.id)
 		}
 	}
 	return o
 }
 
-// unsafe says why the next call cannot be made without crashing the test binary (the real
-// start() of a forwarder that already runs overwrites its done channel: double close; the real
-// stop() of a forwarder that was never started calls a nil cancel function). This is not a verdict:
-// the walk is cut and what was observed so far goes to TLC.
+// unsafe says why the next call cannot be made without crashing the test binary (the real stop() of
+// a forwarder with two run loops closes its done channel twice; the real stop() of a forwarder that
+// was never started calls a nil cancel function). This is not a verdict: the walk is cut and what was
+// observed so far goes to TLC.
 func (w *vf39World) unsafe(op string) string {
-	for _, dh := range w.m.destHandlers {
-		if op == "Start" && vf39Open(dh.done) {
-			return "Start would start a forwarder that already runs"
+	list := w.m.APIList()
+	w.mu.Lock()
+	defer w.mu.Unlock()
+	w.refresh()
+	for _, st := range w.byID {
+		if w.loops(st) >= 2 {
+			return "a forwarder has two run loops: stopping it would close its done channel twice"
 		}
-		if op == "Stop" && dh.ctxCancel == nil {
-			return "Stop would stop a forwarder that was never started"
+	}
+	if op == "Stop" {
+		for _, it := range list.Items {
+			st := w.state(vf39Prefix(it.ID))
+			never := false
+			if st.ptr != nil {
+				if isNil, ok := vf39NeverStarted(st.ptr); ok {
+					never = isNil
+				} else if w.logsOK {
+					never = st.starts == 0
+				}
+			} else if w.logsOK {
+				never = st.starts == 0
+			}
+			if never {
+				return "Stop would stop a forwarder that was never started"
+			}
 		}
 	}
 	return ""
 }
 
-func vf39Exec(t testing.TB, r *vf39Run) {
+func (w *vf39World) cleanup() {
+	// leave nothing running, through the public interface only; run loops that the manager lost track
+	// of (mutants) are goroutines retrying against a closed port until the child process exits
+	if w.m != nil && w.started && w.unsafe("Stop") == "" {
+		w.m.Stop()
+	}
+	if w.strm != nil {
+		w.strm.Close()
+	}
+}
+
+// vf39Calibrate finds out which observation channels work in this build.
+func vf39Calibrate(t testing.TB) (ptrs bool, logs bool) {
+	w := vf39NewWorld()
+	w.newManager([]string{"a"})
+	hs, ok := vf39Handlers(w.m)
+	if ok && len(hs) == 1 && hs[0] != nil {
+		if _, ok2 := vf39Done(hs[0]); ok2 {
+			ptrs = true
+		}
+	}
+	strm := vf39Stream(t)
+	w.m.Start(strm)
+	ptrOpen := false
+	if ptrs {
+		ch, _ := vf39Done(hs[0])
+		ptrOpen = vf39Open(ch)
+	}
+	w.mu.Lock()
+	n1 := 0
+	for _, st := range w.byID {
+		n1 += st.live
+	}
+	w.mu.Unlock()
+	w.m.Stop()
+	strm.Close()
+	if ptrs {
+		ch, _ := vf39Done(hs[0])
+		ptrs = ptrOpen && !vf39Open(ch)
+	}
+	w.mu.Lock()
+	n2, starts := 0, 0
+	for _, st := range w.byID {
+		n2 += st.live
+		starts += st.starts
+	}
+	w.mu.Unlock()
+	logs = n1 == 1 && n2 == 0 && starts == 1 && len(w.byID) == 1
+	if logs {
+		list := w.m.APIList()
+		_, known := w.byID[vf39Prefix(list.Items[0].ID)]
+		logs = known
+	}
+	return ptrs, logs
+}
+
+func vf39Exec(t testing.TB, r *vf39Run, ptrs, logs bool) {
 	t0 := time.Now()
-	w := &vf39World{ids: map[uuid.UUID]int{}, all: map[*DestHandler]int{}, runs: map[chan struct{}]int{}}
+	w := vf39NewWorld()
+	w.ptrsOK, w.logsOK = ptrs, logs
+	r.Ptrs, r.Logs = ptrs, logs
 	r.Obs = []vf39Obs{}
-	placeholder := vf39Stream(t)
-	defer placeholder.Close()
-	defer func() {
-		// leave nothing running
-		for dh := range w.all {
-			if vf39Open(dh.done) {
-				dh.stop()
-			}
-		}
-		if w.strm != nil {
-			w.strm.Close()
-		}
-	}()
+	defer w.cleanup()
 	for k, op := range r.Ops {
 		if op.L == nil {
 			r.Ops[k].L = []string{}
@@ -214,20 +476,7 @@ func vf39Exec(t testing.TB, r *vf39Run) {
 			if k != 0 {
 				t.Fatalf("run %d: Initialize at step %d", r.Run, k)
 			}
-			w.m = &Manager{
-				ReadTimeout:       conf.Duration(2 * time.Second),
-				WriteTimeout:      conf.Duration(2 * time.Second),
-				UDPMaxPayloadSize: 1472,
-				PathName:          "p",
-				Forward:           vf39Fwd(op.L),
-				Parent:            vf39Log{},
-			}
-			w.m.Initialize()
-			// the manager only reads its stream while started; giving it a live stream from the
-			// beginning changes nothing for the unchanged code and keeps a forwarder that is started
-			// too early observable instead of crashing the test binary
-			w.m.stream = placeholder
-			w.conf = op.L
+			w.newManager(op.L)
 		case "Start":
 			w.strm = vf39Stream(t)
 			w.m.Start(w.strm)
@@ -235,6 +484,7 @@ func vf39Exec(t testing.TB, r *vf39Run) {
 		case "Stop":
 			w.m.Stop()
 			w.started = false
+			// as core/path.go does: the stream is closed after the forwarders were stopped
 			if w.strm != nil {
 				w.strm.Close()
 				w.strm = nil
@@ -250,14 +500,112 @@ func vf39Exec(t testing.TB, r *vf39Run) {
 	r.Ms = time.Since(t0).Milliseconds()
 }
 
+// child: replays the walks [FROM, ...) and appends one line per finished walk to the given file.
+func TestVerif_C39_Child(t *testing.T) {
+	outPath := os.Getenv("VERIF_C39_CHILD_OUT")
+	if outPath == "" {
+		t.Skip("helper of TestVerif_C39_Replay")
+	}
+	from, _ := strconv.Atoi(os.Getenv("VERIF_C39_CHILD_FROM"))
+	f, err := os.OpenFile(outPath, os.O_CREATE|os.O_WRONLY|os.O_TRUNC, 0o644)
+	if err != nil {
+		t.Fatal(err)
+	}
+	defer f.Close()
+	ptrs, logs := vf39Calibrate(t)
+	// self-test switches of the harness: VERIF_P_NOPTRS=1 / VERIF_P_NOLOGS=1 disable one observation channel
+	if verifrt.Param("NOPTRS", 0) == 1 {
+		ptrs = false
+	}
+	if verifrt.Param("NOLOGS", 0) == 1 {
+		logs = false
+	}
+	if !ptrs && !logs {
+		t.Fatalf("neither the forwarders' log lines nor their done channels can be observed in this build")
+	}
+	n := 0
+	verifrt.ForEachCase(t, func(raw []byte) {
+		n++
+		if n <= from {
+			return
+		}
+		var r vf39Run
+		verifrt.Decode(t, raw, &r)
+		vf39Exec(t, &r, ptrs, logs)
+		b, err2 := json.Marshal(&r)
+		if err2 != nil {
+			t.Fatal(err2)
+		}
+		f.Write(append(b, '\n'))
+	})
+}
+
 // spec -> impl: the edge-covering walks of Forward.tla.
 func TestVerif_C39_Replay(t *testing.T) {
 	out := verifrt.NewOut(t)
 	defer out.Close()
-	verifrt.ForEachCase(t, func(raw []byte) {
+	var cases [][]byte
+	verifrt.ForEachCase(t, func(raw []byte) { cases = append(cases, raw) })
+	work := os.Getenv("VERIF_WORK")
+	if work == "" {
+		work = t.TempDir()
+	}
+	tmp := work + "/c39-child.ndjson"
+	from, crashes := 0, 0
+	for from < len(cases) {
+		os.Remove(tmp)
+		cmd := exec.Command(os.Args[0], "-test.run=^TestVerif_C39_Child$", "-test.count=1", "-test.timeout=500s")
+		cmd.Env = append(os.Environ(), "VERIF_C39_CHILD_OUT="+tmp, "VERIF_C39_CHILD_FROM="+strconv.Itoa(from))
+		var buf bytes.Buffer
+		cmd.Stdout = &buf
+		cmd.Stderr = &buf
+		runErr := cmd.Run()
+		done := 0
+		if fh, err := os.Open(tmp); err == nil {
+			sc := bufio.NewScanner(fh)
+			sc.Buffer(make([]byte, 1<<20), 1<<28)
+			for sc.Scan() {
+				var r vf39Run
+				if json.Unmarshal(sc.Bytes(), &r) != nil {
+					break // a line cut by the crash
+				}
+				out.Emit(&r)
+				done++
+			}
+			fh.Close()
+		}
+		from += done
+		if runErr == nil {
+			if from < len(cases) {
+				t.Fatalf("child finished after %d of %d walks", from, len(cases))
+			}
+			break
+		}
+		text := buf.String()
+		if i := bytes.Index(buf.Bytes(), []byte("panic:")); i >= 0 {
+			text = text[i:]
+		} else if i := bytes.Index(buf.Bytes(), []byte("fatal error:")); i >= 0 {
+			text = text[i:]
+		} else {
+			// not a crash of the code under test: a harness problem
+			t.Fatalf("child failed: %v\n%s", runErr, text)
+		}
+		if len(text) > 700 {
+			text = text[:700]
+		}
+		if from >= len(cases) {
+			t.Fatalf("child crashed after the last walk: %s", text)
+		}
 		var r vf39Run
-		verifrt.Decode(t, raw, &r)
-		vf39Exec(t, &r)
+		verifrt.Decode(t, cases[from], &r)
+		r.Obs = []vf39Obs{}
+		r.Crashed = text
 		out.Emit(&r)
-	})
+		from++
+		crashes++
+		if crashes > 400 {
+			t.Fatalf("more than 400 walks crashed the process; last: %s", text)
+		}
+	}
+	os.Remove(tmp)
 }
